@@ -12,7 +12,8 @@ from quara.objects.state_typical import get_state_names_1qubit, generate_state_f
 
 
 def get_state_ensemble_names():
-    names = get_state_names_1qubit()
+    # only the ensembles that have a generator below (get_state_ensemble_<name>_elements)
+    names = ["z0", "z1", "x0"]
     return names
 
 
